@@ -15,6 +15,7 @@ type instCtx struct {
 	ground map[int][]*Term // array term id -> index terms of ground selects/stores on it
 	gseen  map[int]bool
 	groundApps map[string][]*Term
+	groundBySort map[Sort][]*Term
 }
 
 // indexGround records the index terms of closed select/store applications.
@@ -25,6 +26,10 @@ func (ic *instCtx) indexGround(t *Term) {
 	ic.gseen[t.id] = true
 	if t.kind == kApp && (t.op == "select" || t.op == "store") && !t.args[0].open && !t.args[1].open {
 		a := t.args[0]
+		if ic.groundBySort == nil {
+			ic.groundBySort = map[Sort][]*Term{}
+		}
+		ic.groundBySort[a.sort] = append(ic.groundBySort[a.sort], t.args[1])
 		// look through stores: indices used on a store chain are relevant for its base too
 		for {
 			ic.ground[a.id] = append(ic.ground[a.id], t.args[1])
@@ -76,21 +81,38 @@ func (ic *instCtx) patternCands(body *Term, v *Term) []*Term {
 				}
 				break
 			}
+			var gs [][]*Term
+			found := false
 			for _, arr := range arrs {
-				for _, g := range ic.ground[arr.id] {
+				if len(ic.ground[arr.id]) > 0 {
+					found = true
+				}
+				gs = append(gs, ic.ground[arr.id])
+			}
+			if !found {
+				// no read of this very array term: reads of arrays of the same sort
+				// (the same array modulo equalities the solver knows)
+				gs = [][]*Term{ic.groundBySort[a.sort]}
+			}
+			for _, gl := range gs {
+				for _, g := range gl {
 					if idx == v {
 						add(g)
 					} else if idx.kind == kApp && idx.op == "bvadd" && len(idx.args) == 2 {
 						for k := 0; k < 2; k++ {
 							if idx.args[k] == v && !idx.args[1-k].open {
 								base := idx.args[1-k]
-								if g.kind == kApp && g.op == "bvadd" && len(g.args) == 2 {
+								if g.kind == kApp && g.op == "bvadd" && len(g.args) == 2 && (g.args[0] == base || g.args[1] == base) {
 									if g.args[0] == base {
 										add(g.args[1])
-									} else if g.args[1] == base {
+									} else {
 										add(g.args[0])
 									}
-								} else if g == base {
+								} else if !g.open && g.sort == v.sort && g != base {
+									// any other index G is base + (G - base): matching modulo arithmetic
+									add(ic.ts.App("bvsub", g.sort, g, base))
+								}
+								if g == base {
 									add(ic.ts.BV(0, v.sort.bvWidth()))
 								} else if bz, ok := base.bvConst(); ok && bz == 0 {
 									add(g)
